@@ -138,6 +138,10 @@ func unquoteString(b []byte) ([]byte, int) {
 		if str == "" {
 			break
 		}
+		if str[0] == '\r' || str[0] == '\n' {
+			// A raw line break ends the literal here as well, not only before the first escape
+			break
+		}
 		ch, _, tail, err = strconv.UnquoteChar(str, '"')
 		if err != nil {
 			break
